@@ -44,6 +44,8 @@ def check(prog, run):
     av1_reader_rule(prog, run, "R9")
     run.rule("R10", "offset-passing header parsers (VP9): every read starts at the offset returned by the read before it (+k) on every path; no field is read from bytes another field consumed")
     cursor_chain_rule(prog, run, "R10")
+    run.rule("R14", "AV1 OBU header parsing == AV1 5.3.1/5.3.2 for all 256 header bytes (type, extension, payload offset and size; forbidden bit refused)")
+    obu_header_rule(prog, run, "R14")
     run.rule("R13", "parameter-set slots by NAL type: for all 256 header bytes the unit lands in the slot of its specification type only; first wins (H.264, H.265)")
     parameter_set_table_rule(prog, run, "R13")
     run.rule("R12", "AV1 bit reader primitives (read_bit, read_bits, skip_bits) and the uvlc helper behave as the descriptors f(n) / uvlc() of the AV1 specification (complete tabulation of their finite state)")
@@ -727,6 +729,56 @@ def av1_reader_rule(prog, run, rule):
             run.bad(rule, "AV1 sequence header (%s): %s" % (label, mm["what"]), "on the syntax path %s the parser deviates from the specification: %s" % (
                 {k: v for k, v in mm["scenario"].items() if v}, mm["what"]), mir.loc_of(u.bodies[name]) if name in u.bodies else None)
     run.extra["av1_syntax_paths_compared"] = total
+
+
+# ---- R14: the OBU header --------------------------------------------------------------------------------------------------------
+def obu_header_rule(prog, run, rule):
+    """AV1 5.3.1 / 5.3.2: obu_forbidden_bit(1) obu_type(4) obu_extension_flag(1) obu_has_size_field(1) obu_reserved_1bit(1), an extension
+    byte iff the flag is set, then leb128(obu_size) iff has_size.  `parse_obu_header` is tabulated for all 256 header bytes, with a
+    one- and a two-byte leb128 size and without size field; it must report the type, the extension flag, the offset of the payload
+    and the payload size the specification prescribes, and refuse exactly the headers with the forbidden bit (well-formed inputs
+    of sufficient length; reserved bit 0 and 1 both accepted by the specification's syntax)."""
+    from .. import minieval as E
+    u = prog.lib
+    fns = [k for k in u.bodies if mir.norm(k) == "codec::av1::parse_obu_header" and not u.bodies[k]["in_test_cfg"]]
+    if len(fns) != 1:
+        run.bad(rule, "anchor parse_obu_header", "OBU header parser not found")
+        return
+    n = 0
+    bad = None
+    try:
+        for b0 in range(256):
+            ext, has_size = (b0 >> 2) & 1, (b0 >> 1) & 1
+            for leb, size in (([0x05], 5), ([0x85, 0x01], 133)):
+                data = [b0] + ([0x00] if ext else []) + (leb if has_size else []) + [0xAB] * 140
+                m = E.Machine(u)
+                m.lenient = True
+                r = m.call_fn(fns[0], [E.Bytes(dict(enumerate(data)), exact=len(data))])
+                n += 1
+                if not (isinstance(r, E.Adt) and r.name == "Option"):
+                    raise E.Unsupported("result outside the model: %r" % (r,))
+                if b0 & 0x80:
+                    want = None
+                else:
+                    hs = 1 + ext + (len(leb) if has_size else 0)
+                    ps = size if has_size else len(data) - 1 - ext
+                    want = {"obu_type": (b0 >> 3) & 0xF, "has_extension": ext, "header_size": hs, "payload_size": ps, "total_size": hs + ps}
+                got = None
+                if r.variant == 1 and isinstance(r.fields[0], E.Adt) and r.fields[0].names:
+                    got = {k_: r.fields[0].get(k_) for k_ in r.fields[0].names}
+                if want is None:
+                    ok = got is None
+                else:
+                    ok = got is not None and all(got.get(k_) == v_ for k_, v_ in want.items())
+                if not ok and bad is None:
+                    bad = (b0, has_size, size, got, want)
+    except E.Unsupported as ex:
+        run.bad(rule, "OBU header table", "cannot tabulate parse_obu_header (fail closed): %s" % ex)
+        return
+    run.check(bad is None, rule, "OBU header table", "type / extension / payload offset / payload size as in AV1 5.3 for all 256 header bytes (2 size encodings)",
+              "" if bad is None else "OBU header byte 0x%02x (%s): parse_obu_header gives %s, AV1 5.3.1-5.3.2 prescribes %s" % (bad[0], ("obu_size %d" % bad[2]) if bad[1] else "no size field", bad[3], bad[4]),
+              mir.loc_of(u.bodies[fns[0]]))
+    run.floor(rule, n, 512, "OBU header evaluations")
 
 
 # ---- R13: which NAL unit goes into which parameter-set slot ------------------------------------------------------------------------
